@@ -228,7 +228,7 @@ func checkC02(c *Ctx) {
 	}
 
 	// ---- R02f conversion table
-	checkConversionTable(c, ep)
+	checkConversionTable(c, ep, "R02f")
 
 	// ---- R02d TS server
 	checkTSQueryBinding(c)
@@ -360,11 +360,11 @@ func FindPathPruned(ep *EmittedPkg, body *ast.BlockStmt, lf labelFn, start strin
 	})
 }
 
-func checkConversionTable(c *Ctx, ep *EmittedPkg) {
+func checkConversionTable(c *Ctx, ep *EmittedPkg, rule string) {
 	r := c.R
 	f := ep.Funcs["convertStringToFieldValue"]
 	if f == nil {
-		r.Unres("R02f", "convertStringToFieldValue", "", "emitted function not found")
+		r.Unres(rule, "convertStringToFieldValue", "", "emitted function not found")
 		return
 	}
 	type row struct {
@@ -415,10 +415,10 @@ func checkConversionTable(c *Ctx, ep *EmittedPkg) {
 			seen[kind] = true
 			want, known := oracle[kind]
 			if !known {
-				r.Bad("R02f", "convertStringToFieldValue case "+kind, ep.GenPos(cc.Pos()), "kind has no scalar string form in the oracle table", nil)
+				r.Bad(rule, "convertStringToFieldValue case "+kind, ep.GenPos(cc.Pos()), "kind has no scalar string form in the oracle table", nil)
 				continue
 			}
-			r.CheckD(got == want, "R02f", "convertStringToFieldValue case "+kind, ep.GenPos(cc.Pos()),
+			r.CheckD(got == want, rule, "convertStringToFieldValue case "+kind, ep.GenPos(cc.Pos()),
 				fmt.Sprintf("a URL value of kind %s is converted with %s(bits %s) -> %s; the kind requires %s(bits %s) -> %s (out-of-range values would wrap or be refused wrongly)", kind, got.parser, got.bits, got.ctor, want.parser, want.bits, want.ctor),
 				map[string]any{"parser": got.parser, "bits": got.bits, "constructor": got.ctor})
 		}
@@ -426,7 +426,7 @@ func checkConversionTable(c *Ctx, ep *EmittedPkg) {
 	})
 	for k := range oracle {
 		if !seen[k] {
-			r.Bad("R02f", "convertStringToFieldValue case "+k, ep.GenPos(f.Pos()), "scalar kind accepted as path/query parameter has no conversion arm", nil)
+			r.Bad(rule, "convertStringToFieldValue case "+k, ep.GenPos(f.Pos()), "scalar kind accepted as path/query parameter has no conversion arm", nil)
 		}
 	}
 }
